@@ -296,15 +296,18 @@ Init ==
   /\ text = <<>> /\ stack = << [n |-> <<>>, k |-> <<>>] >> /\ nn = 0
   /\ obs = [a |-> "none", arg |-> [x |-> 0], exp |-> [ret |-> "ok", tree |-> <<>>, links |-> 0, ev |-> <<>>]]
 
-Next ==
+ItemNext ==          \* the actions that extend the document
   \/ \E name \in OptNames, v \in Values, q \in Quotes, d \in Decos :
         AddOption(name, v, q, d.g, d.b1, d.b2, d.b3, IF F.oe # 0 THEN "end" ELSE d.term)
   \/ \E name \in SecNames, d \in Decos : OpenSection(name, d.g, d.b1, d.b2, d.g2)
   \/ \E d \in Decos : CloseSection(d.g)
+ObsNext ==           \* further cases about the same document (state unchanged)
   \/ \E d \in Decos : Trailer(d.g, d.g2)
   \/ \E d \in Decos, w \in BOOLEAN : StrayEnd(d.g, w)
+Next == ItemNext \/ ObsNext
 
 Spec == Init /\ [][Next]_vars
+ItemSpec == Init /\ [][ItemNext]_vars     \* same reachable states (exhaustive runs)
 
 ---------------------------------------------------------------------------
 (* Tier 2: the character scanner of mpt_parse_data over the path buffer.   *)
